@@ -3,6 +3,8 @@ import Nsq.Model.InFlight
 import Nsq.Model.Restart
 import Nsq.Proofs.Life
 import Nsq.Proofs.InFlight
+import Nsq.Proofs.InFlightEmpty
+import Nsq.Proofs.InFlightQuiesce
 import Nsq.Proofs.LifeLock
 import Nsq.Tie.Life
 /-
@@ -112,12 +114,85 @@ example : Nsq.Proofs.InFlight.NoDupPush (InFlight.initSt []) zombieSchedule := b
     InFlight.okH, InFlight.push, InFlight.up, InFlight.dropCont, InFlight.contObjs]
 
 
+/-! ### the positive theorem: `IndexOK` always, `MapHeapAgree` at quiescence — EVERY schedule of the committed shape
+
+With F48 (`pushAtomic`: map insert and heap push are one critical section), F16 (`scanAtomic`) and F7 (`fixed`) the three
+counter-examples above (`zombieSchedule`, `lateAnswerSchedule`, `duplicateSchedule` — all three live in the window between
+the map insert and the heap push) are gone, and the statement holds with NO schedule hypothesis (`NoDupPush` is not needed
+any more).  Invariant `Proofs.InFlightQuiesce.QInv` (index fields; map ⊆ heap; heap ⊆ map ∪ answers in progress; every id
+has at most one owner).  Whether the tree has F27 (`ansLock`) does not matter. -/
+
+/-- a channel of the committed shape whose queue holds the distinct ids `q`, nothing in flight -/
+def committedInit (q : List Nat) (ansLock : Bool) : InFlight.St :=
+  { InFlight.initSt q with scanAtomic := true, pushAtomic := true, ansLock := ansLock }
+
+/-- every reachable state, whatever operations are in progress: every heap slot's object carries that slot's index -/
+theorem index_ok_every_schedule (q : List Nat) (hq : q.Nodup) (al : Bool) (sched : List InFlight.Step) (s : InFlight.St)
+    (h : InFlight.run true (committedInit q al) sched = InFlight.Res.ok s) : InFlight.IndexOK s.h :=
+  (Nsq.Proofs.InFlightQuiesce.run_qinv sched _ s (Nsq.Proofs.InFlightQuiesce.qinv_init q hq true true al) rfl rfl h).ok
+
+/-- every reachable state with no operation in progress (no goroutine between two of its critical sections): the deadline
+heap is a permutation of the in-flight map — no message in flight without a timeout entry, no timeout entry without a
+message in flight, none twice -/
+theorem map_heap_agree_at_quiescence (q : List Nat) (hq : q.Nodup) (al : Bool) (sched : List InFlight.Step) (s : InFlight.St)
+    (h : InFlight.run true (committedInit q al) sched = InFlight.Res.ok s) (hquiet : s.conts = []) :
+    InFlight.MapHeapAgree s ∧ InFlight.IndexOK s.h := by
+  have inv := Nsq.Proofs.InFlightQuiesce.run_qinv sched _ s (Nsq.Proofs.InFlightQuiesce.qinv_init q hq true true al) rfl rfl h
+  exact ⟨Nsq.Proofs.InFlightQuiesce.qinv_quiescent s inv hquiet, inv.ok⟩
+
+/-- … and while operations ARE in progress: every in-flight message has its heap entry, and a heap entry without an
+in-flight message belongs to a FIN / REQ / TOUCH that has popped the message and is about to remove the entry -/
+theorem map_heap_agree_in_progress (q : List Nat) (hq : q.Nodup) (al : Bool) (sched : List InFlight.Step) (s : InFlight.St)
+    (h : InFlight.run true (committedInit q al) sched = InFlight.Res.ok s) :
+    (∀ o ∈ s.map, o ∈ s.h.pq) ∧ (∀ o ∈ s.h.pq, o ∈ s.map ∨ o ∈ Nsq.Proofs.InFlightQuiesce.answering s.conts) ∧
+    s.h.pq.Nodup ∧ s.map.Nodup := by
+  have inv := Nsq.Proofs.InFlightQuiesce.run_qinv sched _ s (Nsq.Proofs.InFlightQuiesce.qinv_init q hq true true al) rfl rfl h
+  refine ⟨inv.mp, inv.pm, Nsq.Proofs.InFlight.indexOK_nodup inv.ok, ?_⟩
+  rw [List.nodup_iff_count]
+  intro x
+  have := inv.own x
+  simp only [Nsq.Proofs.InFlightQuiesce.own] at this
+  omega
+
+/-- the same statement about the instance of the micro-step model that the regenerated facts of the CURRENT TREE select
+(`Tie.Life.treeFixed / treeScanAtomic / treePushAtomic / treeAnsLock`; audit B12: a tree that reverts F7, F16 or F48 changes
+these parameters, the ties `tree_fixed`, `tree_scan_atomic`, `tree_push_atomic` fail and this is no longer a statement about it) -/
+theorem map_heap_agree_tree (q : List Nat) (hq : q.Nodup) (sched : List InFlight.Step) (s : InFlight.St)
+    (h : InFlight.run Nsq.Tie.Life.treeFixed
+      { InFlight.initSt q with scanAtomic := Nsq.Tie.Life.treeScanAtomic, pushAtomic := Nsq.Tie.Life.treePushAtomic,
+                               ansLock := Nsq.Tie.Life.treeAnsLock } sched = InFlight.Res.ok s) :
+    InFlight.IndexOK s.h ∧ (s.conts = [] → InFlight.MapHeapAgree s) := by
+  rw [Nsq.Tie.Life.tree_fixed, Nsq.Tie.Life.tree_scan_atomic, Nsq.Tie.Life.tree_push_atomic] at h
+  exact ⟨index_ok_every_schedule q hq _ sched s h, fun hq' => (map_heap_agree_at_quiescence q hq _ sched s h hq').1⟩
+
+/-- the three former counter-examples, run on the committed shape, end in agreement (they were theorems about the
+pre-F48 shape: `map_heap_agree_full_false`, `map_heap_agree_late_answer`, `index_ok_full_false` above) -/
+theorem former_counterexamples_agree :
+    (match InFlight.run true (committedInit [] false) zombieSchedule with
+     | InFlight.Res.ok s => s.conts.isEmpty && InFlight.mapHeapAgreeB s && InFlight.indexOkB s.h | _ => false) = true ∧
+    (match InFlight.run true (committedInit [] false) lateAnswerSchedule with
+     | InFlight.Res.ok s => s.conts.isEmpty && InFlight.mapHeapAgreeB s && InFlight.indexOkB s.h | _ => false) = true ∧
+    -- the double push: the REQ now removes the heap entry the delivery has already pushed; one slot in the end
+    (match InFlight.run true (committedInit [] false) duplicateSchedule with
+     | InFlight.Res.ok s => s.conts.isEmpty && decide (s.h.pq = [1]) && decide (s.map = [1]) && InFlight.indexOkB s.h
+     | _ => false) = true := by decide
+
+/-- non-vacuity: three messages, deliveries, a deferred REQ, a TOUCH, a FIN, a timeout scan and an Empty racing one another;
+at the end nothing is in progress, two messages are in flight and the heap holds exactly those two -/
+example : (match InFlight.run true (committedInit [1, 2, 3] false)
+      [.startMapPush 1 1 10, .startMapPush 1 2 20, .reqPop 1 1 5, .startPQPush 1, .touchPop 1 2, .reqRemove 1, .touchRemove 2,
+       .startPQPush 2, .reqPut 1, .touchMapPush 2 30, .deferPQPush 1 50, .touchPQPush 2, .startMapPush 2 3 15, .scanPeek 16,
+       .startPQPush 3, .scanPop 3, .dscanPeek 60, .dscanPop 1, .startMapPush 2 1 40, .startPQPush 1, .finPop 2 1, .finRemove 1,
+       .startMapPush 1 3 70, .startPQPush 3] with
+    | InFlight.Res.ok s => s.conts.isEmpty && decide (s.map = [3, 2]) && decide (s.h.pq = [2, 3]) && InFlight.mapHeapAgreeB s
+    | _ => false) = true := by decide
+
 /-! ### Empty racing an answer in progress (audit B17) -/
 
 /-- everything the channel is responsible for: queued, in flight, deferred, or in the hands of an operation in progress -/
 def heldBy (s : InFlight.St) : List Nat := s.map ++ s.queued ++ s.dmap ++ InFlight.contObjs s.conts
 
-def noPut (l : List InFlight.Step) : Bool := l.all (fun a => match a with | .put _ => false | _ => true)
+def noPut (l : List InFlight.Step) : Bool := Nsq.Proofs.InFlightEmpty.noPut l
 
 /-- objects held when `Empty` begins (after `pre`) that are in flight again after `Empty` (all three critical
 sections) and the continuation `post`; `none` = the schedule is not executable -/
@@ -180,6 +255,109 @@ theorem empty_sections_clear (s s1 s2 s3 : InFlight.St)
 
 example : survivors [.put 1, .startMapPush 1 1 10, .startPQPush 1] [.scanPeek 50] = some [] := by decide
 
+/-! #### fixes/F27: REQ / TOUCH hold the channel's read lock (`St.ansLock`, tie `answers_channel_lock_shape`) -/
+
+/-- the tree as committed (F7, F16, F48) and the tree with the proposal fixes/F27 on top -/
+def committedTree : InFlight.St := { InFlight.initSt [] with scanAtomic := true, pushAtomic := true }
+def f27Tree : InFlight.St := { InFlight.initSt [] with scanAtomic := true, pushAtomic := true, ansLock := true }
+
+/-- `survivors` from an arbitrary initial parameter choice -/
+def survivorsOn (s0 : InFlight.St) (pre post : List InFlight.Step) : Option (List Nat) :=
+  match InFlight.run true s0 pre with
+  | InFlight.Res.ok s1 =>
+    match InFlight.run true s1 ([.emptyResetInflight, .emptyResetDeferred, .emptyRest] ++ post) with
+    | InFlight.Res.ok s2 => some ((heldBy s1).filter (fun o => decide (o ∈ s2.map)))
+    | _ => none
+  | _ => none
+
+/-- the state in which `Empty` begins has no timeout scan between its heap+map pop and its `put` -/
+def noScanHeldAfter (s0 : InFlight.St) (pre : List InFlight.Step) : Bool :=
+  match InFlight.run true s0 pre with
+  | InFlight.Res.ok s1 => Nsq.Proofs.InFlightEmpty.noScanHeld s1.conts
+  | _ => true
+
+/-- TOUCH variant of `emptySurvivorSchedule` (committed tree): the TOUCH re-registers the message after the Empty -/
+def emptyTouchSurvivorSchedule : List InFlight.Step :=
+  [.touchPop 1 1, .emptyResetInflight, .emptyResetDeferred, .emptyRest, .touchRemove 1, .touchMapPush 1 30, .touchPQPush 1]
+
+/-- scan variant: the timeout scan holds the message (out of heap and map, F16) while Empty runs, then requeues it -/
+def emptyScanSurvivorSchedule : List InFlight.Step :=
+  [.scanPeek 50, .emptyResetInflight, .emptyResetDeferred, .emptyRest, .scanPop 1, .startMapPush 2 1 20, .startPQPush 1]
+
+/-- on the committed tree (F48 shape) all three variants leave message 1 in flight after the Empty (replays
+`empty_races_{req,touch,scan}_survives`) -/
+theorem empty_survivor_variants :
+    survivorsOn committedTree [.put 1, .startMapPush 1 1 10, .startPQPush 1, .reqPop 1 1 0]
+      [.reqRemove 1, .reqPut 1, .startMapPush 2 1 20, .startPQPush 1] = some [1] ∧
+    survivorsOn committedTree [.put 1, .startMapPush 1 1 10, .startPQPush 1, .touchPop 1 1]
+      [.touchRemove 1, .touchMapPush 1 30, .touchPQPush 1] = some [1] ∧
+    survivorsOn committedTree [.put 1, .startMapPush 1 1 10, .startPQPush 1, .scanPeek 50]
+      [.scanPop 1, .startMapPush 2 1 20, .startPQPush 1] = some [1] := by decide
+
+/-- with F27 the REQ and TOUCH witnesses are no schedules any more: `Empty` cannot begin while the answer holds the read
+lock (the answer finishes first, then Empty discards what it re-inserted), and an answer cannot begin while Empty runs -/
+theorem f27_witnesses_impossible :
+    survivorsOn f27Tree [.put 1, .startMapPush 1 1 10, .startPQPush 1, .reqPop 1 1 0]
+      [.reqRemove 1, .reqPut 1, .startMapPush 2 1 20, .startPQPush 1] = none ∧
+    survivorsOn f27Tree [.put 1, .startMapPush 1 1 10, .startPQPush 1, .touchPop 1 1]
+      [.touchRemove 1, .touchMapPush 1 30, .touchPQPush 1] = none ∧
+    -- the same operations in the order the lock forces: nothing survives
+    survivorsOn f27Tree [.put 1, .startMapPush 1 1 10, .startPQPush 1, .reqPop 1 1 0, .reqRemove 1, .reqPut 1]
+      [.startMapPush 2 1 20] = none ∧
+    survivorsOn f27Tree [.put 1, .startMapPush 1 1 10, .startPQPush 1, .reqPop 1 1 0, .reqRemove 1, .reqPut 1] [] = some [] ∧
+    survivorsOn f27Tree [.put 1, .startMapPush 1 1 10, .startPQPush 1, .touchPop 1 1, .touchRemove 1, .touchMapPush 1 30,
+      .touchPQPush 1] [.scanPeek 100] = some [] ∧
+    -- an answer arriving while Empty runs waits (disabled) until `emptyRest` has run
+    (match InFlight.run true f27Tree [.put 1, .startMapPush 1 1 10, .startPQPush 1, .emptyResetInflight, .reqPop 1 1 0] with
+     | InFlight.Res.disabled => true | _ => false) = true := by decide
+
+/-- **`empty_discards_held_fixed`** — tree with fixes/F27, EVERY schedule `pre` before and `post` after the Empty (no new
+publish in `post`), provided no timeout scan holds a message when Empty begins: nothing the channel held when `Empty` began
+— indeed nothing at all — is in flight after it.  (Hypothesis forced: `empty_discards_held_scan_false`.) -/
+theorem empty_discards_held_fixed (pre post : List InFlight.Step) (hp : noPut post = true)
+    (hs : noScanHeldAfter f27Tree pre = true) :
+    survivorsOn f27Tree pre post = none ∨ survivorsOn f27Tree pre post = some [] := by
+  unfold survivorsOn
+  unfold noScanHeldAfter at hs
+  cases h1 : InFlight.run true f27Tree pre with
+  | panic => exact Or.inl rfl
+  | disabled => exact Or.inl rfl
+  | ok s1 =>
+    rw [h1] at hs
+    simp only []
+    cases h2 : InFlight.run true s1 ([.emptyResetInflight, .emptyResetDeferred, .emptyRest] ++ post) with
+    | panic => exact Or.inl rfl
+    | disabled => exact Or.inl rfl
+    | ok s2 =>
+      right
+      have hpar := Nsq.Proofs.InFlightEmpty.run_params true pre f27Tree s1 h1
+      have hm := Nsq.Proofs.InFlightEmpty.empty_then_nothing_in_flight true s1 s2 (by rw [hpar.1]; rfl) (by rw [hpar.2.2]; rfl)
+        hs post hp h2
+      simp [hm]
+
+/-- the full claim for the F27 tree (without the scan hypothesis) is false: the timeout scan's window is not covered by
+fixes/F27 (it holds `exitMutex.RLock` only).  Replayed on the real code: `empty_races_scan_survives`; open finding
+`empty-races-timeout-scan-message-survives`. -/
+def EmptyDiscardsHeldF27Full : Prop :=
+  ∀ (pre post : List InFlight.Step), noPut post = true → survivorsOn f27Tree pre post = none ∨ survivorsOn f27Tree pre post = some []
+
+theorem empty_discards_held_scan_false : ¬ EmptyDiscardsHeldF27Full := by
+  intro h
+  have := h [.put 1, .startMapPush 1 1 10, .startPQPush 1, .scanPeek 50] [.scanPop 1, .startMapPush 2 1 20, .startPQPush 1]
+    (by decide)
+  revert this
+  decide
+
+/-- non-vacuity of `empty_discards_held_fixed`: a history with a deferred REQ, a TOUCH, a FIN and a delivery in progress,
+then Empty, then everything that was parked runs to its end -/
+example : noScanHeldAfter f27Tree [.put 1, .put 2, .put 3, .startMapPush 1 1 10, .startPQPush 1, .startMapPush 1 2 20,
+      .reqPop 1 1 5, .reqRemove 1, .reqPut 1, .deferPQPush 1 99, .touchPop 1 2, .touchRemove 2, .touchMapPush 2 30, .touchPQPush 2,
+      .finPop 1 2, .startMapPush 2 3 40] = true ∧
+    survivorsOn f27Tree [.put 1, .put 2, .put 3, .startMapPush 1 1 10, .startPQPush 1, .startMapPush 1 2 20,
+      .reqPop 1 1 5, .reqRemove 1, .reqPut 1, .deferPQPush 1 99, .touchPop 1 2, .touchRemove 2, .touchMapPush 2 30, .touchPQPush 2,
+      .finPop 1 2, .startMapPush 2 3 40]
+      [.finRemove 2, .startPQPush 2, .startPQPush 3, .dscanPeek 100, .scanPeek 100] = some [] := by decide
+
 /-! ### shape of the timeout scan (`St.scanAtomic`, tie `scan_shape_known`) -/
 
 /-- with heap pop and map pop in **two** critical sections a REQ plus a redelivery of the same message
@@ -233,8 +411,15 @@ example : InFlight.indexOkB { objs := fun _ => { pri := 0, index := 0, client :=
 
 /-! ## deadlock freedom (lock part) -/
 
-/-- no set of goroutines can wait for each other in a cycle purely on the mutexes of nsqd/:
-the lock-nesting relation regenerated from the current tree is acyclic -/
+/-- no set of goroutines can wait for each other in a cycle purely on the mutexes of nsqd/: the lock-nesting relation
+regenerated from the current tree is acyclic.
+Audit B22 — what this is and is not: a GRAPH fact (`no_deadlock_cycle` holds for any acyclic relation, the empty one included).
+It says something about the tree only through the ties: `Tie.Life.lock_order_acyclic` (`decide` on the regenerated relation),
+`must_hold_edges` (the nestings the models rely on ARE in the relation — deleting an acquisition would otherwise just shrink it),
+`unresolved_calls_pinned` (the 8 call sites through function-typed fields that the extractor cannot follow: pinned, reviewed by
+hand, a new one breaks the tie) and `no_recursive_lock` (no lock is re-acquired while held).  There is no "lift" to an
+operational semantics of goroutines: "a goroutine waits for B while holding A ⇒ (A, B) is in the relation" is the extractor's
+specification (trusted; conservative approximations listed in tools/go2lean/kind_life.go). -/
 theorem lock_only_deadlock_free (hs : List String) :
     ¬ LifeLock.DeadlockCycle Nsq.Gen.Life.lockEdges hs :=
   Nsq.Proofs.LifeLock.no_deadlock_cycle Nsq.Tie.Life.lock_order_acyclic hs
